@@ -16,7 +16,8 @@ LEVEL = 'exploration'
 RULE = ('history = sequence of operations against a real CourierServer reached through a real CourierClient over the in-process '
         'transport: evaluate a generated lazy expression tree (C17 grammar: nested calls, lazy args, attribute/item/method chains, '
         'cached and lazy results, raising callables), create a remote object and drive attribute / item / method chains on it, '
-        'iterate a remote generator, drain a RemoteIteratorQueue with get / get_batch, request shutdown at a generated point, '
+        'iterate a remote generator, drain a RemoteIteratorQueue with get / get_batch, request shutdown at a generated point or '
+        'while a (then failing / succeeding) request is executing, '
         'optionally from 1..3 concurrent client threads with independent objects; oracle = the eager interpreter with explicit '
         'cache model of C17 (value or exception type+message must match; remote objects stay server-side: mutations through one '
         'chain are visible to the next; iteration yields exactly the elements in order and StopIteration with the return value; '
@@ -80,13 +81,19 @@ def _client_ops(client, ops, model, what, state):
       saved = dict(targets.CALLS)
       try:
         want = ('value', model.ev(e))
-      except (ValueError, KeyError) as ex:
+      except (ValueError, KeyError, TimeoutError) as ex:
         want = ('exc', type(ex).__name__, str(ex))
       targets.CALLS.clear()
       targets.CALLS.update(saved)
       if isinstance(want[1], c17.Handle):
         continue
       got = answer(lambda: client.get_result(c17.build(e)))
+      if want[0] == 'exc' and want[1] == 'TimeoutError':
+        # a TimeoutError raised by the expression itself is an application error like any other: same type and message
+        exc_seen += 1
+        if got == ('timeout', want[2]) or (got[0] == 'timeout' and (state['shutdown'] or shutting)):
+          continue
+        raise Violation('remote-exception-differs-from-local', f'{w}: remote {got!r}, local evaluation raises {want!r}')
       if got[0] == 'timeout' or (got[0] == 'exc' and got[1] == 'RuntimeError' and 'disconnected' in got[2]):
         check(state['shutdown'] or shutting, 'timeout-without-shutdown', f'{w}: {got}')
         continue
@@ -189,6 +196,32 @@ def _client_ops(client, ops, model, what, state):
     elif k == 'shutdown':
       state['shutdown'] = True
       state['server']._request_shutdown()  # pylint: disable=protected-access
+    elif k == 'inflight_shutdown':
+      # the shutdown request arrives while a request is executing on the server; that request then fails (or succeeds):
+      # the harness owns the order through a gate inside the evaluated function
+      kind, msg = op[1], op[2]
+      gate = f'g{next(_uid)}'
+      started, release = threading.Event(), threading.Event()
+      targets.GATES[gate] = (started, release)
+      box = {}
+      th = threading.Thread(target=lambda: box.update(a=answer(lambda: client.get_result(lf.trace(targets.gated_raise)(gate, kind, msg)))),
+                            daemon=True)
+      th.start()
+      ok = started.wait(20)
+      state['shutdown'] = True
+      state['server']._request_shutdown()  # pylint: disable=protected-access
+      release.set()
+      th.join(30)
+      targets.GATES.pop(gate, None)
+      check(ok and not th.is_alive(), 'hang', f'{w}: the in-flight request never {"started" if not ok else "returned"}')
+      got = box['a']
+      if kind == 'value':
+        check(got == ('value', msg) or got[0] == 'timeout', 'remote-value-differs-from-local', f'{w}: in-flight request answered {got!r}')
+      else:
+        exc_seen += 1
+        check(got[0] == 'timeout', 'failure-during-shutdown-not-retriable',
+              f'{w}: the request was executing when the shutdown was requested and then failed with {kind}({msg!r}); the server '
+              f'answered {got!r}, a server that is shutting down must answer with the retriable TimeoutError')
   return hops, exc_seen
 
 
@@ -231,7 +264,7 @@ def run_case(case):
     raise crash(e, what)
   hops = sum(r[0] for r in results)
   excs = sum(r[1] for r in results)
-  shut = any(op[0] == 'shutdown' for ops in case['clients'] for op in ops)
+  shut = any(op[0] in ('shutdown', 'inflight_shutdown') for ops in case['clients'] for op in ops)
   return {'nontrivial': hops >= 1 or excs >= 1 or shut, 'classes': [f'clients-{len(case["clients"])}'] + (['shutdown'] if shut else []) + (
       ['remote-object-hop'] if hops else []) + (['exception'] if excs else [])}
 
@@ -245,7 +278,9 @@ def strat(tier):
     clients = []
     for ci in range(nclients):
       # with several clients, cached expressions would be shared server state: disable caching flags there
-      expr = st.one_of(c17._int(3), c17._list(2), c17._raising().map(lambda r: {'k': 'call', 'fn': 'counted_add', 'args': [{'c': 1}, r]}))  # pylint: disable=protected-access
+      raising = st.one_of(c17._raising(), st.sampled_from(['lock not acquired', 'x y']).map(  # pylint: disable=protected-access
+          lambda m: {'k': 'call', 'fn': 'raise_timeout_error', 'args': [{'c': m}]}))
+      expr = st.one_of(c17._int(3), c17._list(2), raising.map(lambda r: {'k': 'call', 'fn': 'counted_add', 'args': [{'c': 1}, r]}), raising)  # pylint: disable=protected-access
       op = st.one_of(
           st.tuples(st.just('eval'), expr).map(list), st.tuples(st.just('eval'), expr).map(list),
           st.tuples(st.just('remote_obj'), st.integers(0, 5)).map(list),
@@ -262,6 +297,9 @@ def strat(tier):
       clients.append(ops)
     if nclients == 1 and draw(st.integers(0, 3)) == 0:
       clients[0].insert(draw(st.integers(0, len(clients[0]))), ['shutdown'])
+    elif nclients == 1 and draw(st.integers(0, 3)) == 0:
+      clients[0].insert(draw(st.integers(0, len(clients[0]))),
+                        ['inflight_shutdown', draw(st.sampled_from(['RuntimeError', 'ValueError', 'KeyError', 'value'])), 'resource closed'])
     return {'clients': clients}
   return s()
 
